@@ -5,16 +5,19 @@
   SCC test is modelled by its specification `hasCycle`) and `Model/Curves.lean` (`evalCurve`).
   Tie to the code: stream `cfg` (go/harness/config.go vs Driver/ConfigStream.lean).
 
-  Result: the structural half of the property holds (ids, backends, references, acyclicity,
-  completeness for the documented forms). The "can be run" half is FALSE for the code that
-  exists: the validator accepts function curves without members and linear curves with an empty
-  step list, whose evaluation panics (`C11_eval_refuted*`). It holds under exactly these two
-  extra hypotheses (`C11_eval_total_partial`, nested function curves of any depth included).
+  Result (for the tree with the fixes 6a042ff "reject function curves without members and linear
+  curves with empty steps" and ffb7e7d "reject an empty controlAlgorithm block"): the property
+  HOLDS. Acceptance implies unique ids, one backend per entry, resolvable references, an acyclic
+  member graph, non-empty member lists / step maps and an instantiable control algorithm
+  (`C11_sound_*`); every curve of an accepted configuration evaluates without a panic and within
+  the recursion budget (`C11_eval_total`); every configuration assembled from the documented forms
+  is accepted (`C11_complete`).
 
-  Outside the modelled part (curves), demonstrated on the real code only: `controlAlgorithm: {}`
-  decodes to a non-nil `ControlAlgorithmConfig` with `Direct == nil && Pid == nil`; the validator
-  accepts it, `initializeFanControllers` then leaves `controlLoop` nil and `calculateTargetPwm`
-  dereferences it. `Documented` excludes that spelling (`docCtrl`).
+  History: before the fixes `C11_eval_total_statement` was REFUTED (theorems `C11_eval_refuted`,
+  `_delta`, `_steps` of the previous revision of this file): the validator accepted
+  `function: {type: average|delta, curves: []}` and `linear: {steps: []}`, whose evaluation panics
+  (integer divide by zero / index out of range), and `controlAlgorithm: {}`, which left the
+  controller's control loop nil. The witnesses are kept below; they are now rejected.
 -/
 import Fan2go.Proofs.Config
 namespace Fan2go
@@ -82,9 +85,10 @@ def cexSteps : Configuration :=
 
 def cexSensors : SensorTable := [("s", { avg := F64.zero, value := .ok F64.zero })]
 
-theorem cexAverage_accepted : validateConfig cexAverage true = .ok () := rfl
-theorem cexDelta_accepted : validateConfig cexDelta true = .ok () := rfl
-theorem cexSteps_accepted : validateConfig cexSteps true = .ok () := rfl
+/-- the former witnesses are now rejected by the two checks added to `validateCurves` -/
+theorem cexAverage_rejected : validateConfig cexAverage true = .error (.curveNoMembers "c") := rfl
+theorem cexDelta_rejected : validateConfig cexDelta true = .error (.curveNoMembers "c") := rfl
+theorem cexSteps_rejected : validateConfig cexSteps true = .error (.curveEmptySteps "c") := rfl
 
 theorem cexSensors_defined (c : Configuration) (h : c.sensors = oneSensor) :
     SensorsDefined c cexSensors := by
@@ -110,35 +114,10 @@ theorem cexSteps_panics (indef now : Int) :
   simp [evalCurve, toCurveTable, cexSteps, toCurve, CurveTable.get?, SensorTable.get?, cexSensors,
     linSteps, interp, bind, Res.bind]
 
-/-- REFUTED: the validator accepts a function curve without members; evaluating it divides by
-    zero (`average`). -/
-theorem C11_eval_refuted : ¬ C11_eval_total_statement := by
-  intro h
-  have := h cexAverage true cexAverage_accepted 0 cexSensors 0 (cexSensors_defined _ rfl)
-    { id := "c", function := some { type := "average", curves := [] } } (by simp [cexAverage])
-    "integer-divide-by-zero"
-  exact this (cexAverage_panics 0 0)
-
-/-- second witness: `delta` over no members indexes `values[0]` -/
-theorem C11_eval_refuted_delta : ¬ C11_eval_total_statement := by
-  intro h
-  have := h cexDelta true cexDelta_accepted 0 cexSensors 0 (cexSensors_defined _ rfl)
-    { id := "c", function := some { type := "delta", curves := [] } } (by simp [cexDelta])
-    "index-out-of-range"
-  exact this (cexDelta_panics 0 0)
-
-/-- third witness: `steps: []` makes `CalculateInterpolatedCurveValue` index `xValues[-1]` -/
-theorem C11_eval_refuted_steps : ¬ C11_eval_total_statement := by
-  intro h
-  have := h cexSteps true cexSteps_accepted 0 cexSensors 0 (cexSensors_defined _ rfl)
-    { id := "c", linear := some { sensor := "s", steps := some [] } } (by simp [cexSteps])
-    "index-out-of-range"
-  exact this (cexSteps_panics 0 0)
-
-/-- What IS true: with the two missing checks added as hypotheses (every function curve has at
-    least one member, no linear curve has an empty non-nil step map) every curve of an accepted
-    configuration evaluates without a panic and within the recursion budget – for ALL accepted
-    configurations, nested function curves of any depth included (full proof, not only depth ≤ 1). -/
+/-- With the two conditions as explicit hypotheses (every function curve has at least one member,
+    no linear curve has an empty non-nil step map) every curve of an accepted configuration
+    evaluates without a panic and within the recursion budget – nested function curves of any depth
+    included. (Proved before the fix; now a lemma of `C11_eval_total`.) -/
 theorem C11_eval_total_partial (c : Configuration) (permOk : Bool)
     (h : validateConfig c permOk = .ok ())
     (hne : FunctionsNonempty c) (hst : NoEmptySteps c)
@@ -146,6 +125,25 @@ theorem C11_eval_total_partial (c : Configuration) (permOk : Bool)
     ∀ cc ∈ c.curves, ∀ site,
       (evalCurve indef sensors now (c.curves.length + 1) (toCurveTable c) cc.id).2 ≠ .panic site :=
   eval_total_of_accepted c permOk h hne hst indef sensors now hs
+
+/-- accepted ⇒ every function curve has ≥ 1 member and no linear curve has an empty step map
+    (the two checks added by the fix) -/
+theorem C11_sound_nonempty (c : Configuration) (permOk : Bool)
+    (h : validateConfig c permOk = .ok ()) : FunctionsNonempty c ∧ NoEmptySteps c :=
+  ⟨accepted_functionsNonempty h, accepted_noEmptySteps h⟩
+
+/-- accepted ⇒ every fan's `controlAlgorithm`, if present, has `direct` or `pid` set: the control
+    loop can be instantiated (`initializeFanControllers` never leaves it nil) -/
+theorem C11_sound_algo (c : Configuration) (permOk : Bool)
+    (h : validateConfig c permOk = .ok ()) : AlgoInstantiable c := accepted_algoInstantiable h
+
+/-- THE RUN HALF, at full strength: every curve of every accepted configuration evaluates, for
+    all sensor tables defining every sensor entry with finite values, without a panic and within
+    the recursion budget `number of curves + 1`. -/
+theorem C11_eval_total : C11_eval_total_statement := by
+  intro c permOk h indef sensors now hs
+  exact C11_eval_total_partial c permOk h (accepted_functionsNonempty h) (accepted_noEmptySteps h)
+    indef sensors now hs
 
 /-! ### completeness for the documented forms -/
 
@@ -237,6 +235,23 @@ example : validateConfig (withCurves [leaf, fnCurve "a" ["l"], leaf]) true
 /-- a diamond (DAG with a shared descendant) is accepted -/
 example : validateConfig (withCurves [leaf, fnCurve "a" ["b", "c"], fnCurve "b" ["d"],
     fnCurve "c" ["d"], fnCurve "d" ["l"]]) true = .ok () := rfl
+/-- position of the new checks relative to their neighbours: unsupported type wins over empty
+    members; unknown sensor wins over empty steps; unknown curve wins over `controlAlgorithm: {}`,
+    which wins over a bad hwmon block -/
+example : validateConfig (withCurves [leaf, { id := "a", function := some { type := "median", curves := [] } }]) true
+    = .error (.curveBadFnType "a") := rfl
+example : validateConfig (withCurves [leaf, { id := "a", function := some { type := "sum", curves := [] } }]) true
+    = .error (.curveNoMembers "a") := rfl
+example : validateConfig (withCurves [{ id := "a", linear := some { sensor := "zz", steps := some [] } }]) true
+    = .error (.curveNoSensor "a") := rfl
+example : validateConfig (withCurves [{ id := "a", linear := some { sensor := "s", steps := some [] } }]) true
+    = .error (.curveEmptySteps "a") := rfl
+def emptyAlgoFan (curve : String) : Configuration :=
+  { sensors := oneSensor, curves := [leaf],
+    fans := [{ id := "fan", curve := curve, controlAlgorithm := some {}, hwmon := some {} }] }
+example : validateConfig (emptyAlgoFan "zz") true = .error (.fanNoCurve "fan") := rfl
+example : validateConfig (emptyAlgoFan "l") true = .error (.fanEmptyAlgo "fan") := rfl
+
 /-- the permission error wins over a fan error (`err = validateFans(config)` is not returned
     immediately) -/
 def cmdSensorBadFan : Configuration :=
@@ -260,11 +275,11 @@ open Fan2go.C11 in
 open Fan2go.C11 in
 #print axioms C11_sound_acyclic
 open Fan2go.C11 in
-#print axioms C11_eval_refuted
+#print axioms C11_sound_nonempty
 open Fan2go.C11 in
-#print axioms C11_eval_refuted_delta
+#print axioms C11_sound_algo
 open Fan2go.C11 in
-#print axioms C11_eval_refuted_steps
+#print axioms C11_eval_total
 open Fan2go.C11 in
 #print axioms C11_eval_total_partial
 open Fan2go.C11 in
